@@ -230,6 +230,12 @@ def search_nested(ctx):
             # like the polygon-constrained lists: arbitrary increasing sizes not starting at one
             sizes2 = [sorted(set(range(2 + j, top + 3 * j + 2, 1 + (j % 2)))) for j in range(n_lists)]
             shapes.append(("free", sizes2))
+    # a short first list followed by much longer ones (bi-rectangle lots whose inner lists grow): anything the search
+    # derives from the first list only (lengths, counts, budgets) is wrong for the later ones
+    for a, b in ((3, 9), (3, 17), (4, 20), (5, 37), (8, 12), (9, 40)):
+        shapes.append(("from_one", [list(range(1, a + 1)), list(range(1, b + 1))]))
+        if a >= 4:
+            shapes.append(("from_one", [list(range(1, a + 1)), list(range(1, (a + b) // 2 + 1)), list(range(1, b + 1))]))
     for kind, sizes in shapes:
         maxn = max(max(s) for s in sizes)
         for cls in ("Bisection2D", "BisectionZD"):
